@@ -4,6 +4,7 @@
 package main
 
 import (
+	"encoding/json"
 	"flag"
 	"fmt"
 	"os"
@@ -23,7 +24,20 @@ func main() {
 	list := flag.Bool("list", false, "list properties")
 	selfOnly := flag.Bool("selftest", false, "run only the checker self-test (mutant corpus) of the property and print the verdicts")
 	only := flag.String("mutant", "", "with -selftest: run only this mutant and print the checker output")
+	genBase := flag.Bool("gen-baseline", false, "print the baseline of unexported declarations of the repository (core/baseline_names.json)")
 	flag.Parse()
+	if *genBase {
+		prog, err := core.Load(core.Config{Repo: *repo})
+		if err != nil {
+			fmt.Fprintln(os.Stderr, err)
+			os.Exit(2)
+		}
+		snap := core.Snapshot(prog.Types)
+		snap.Funcs = core.SnapshotFuncs(prog)
+		b, _ := json.MarshalIndent(snap, "", " ")
+		fmt.Println(string(b))
+		return
+	}
 	if t := os.Getenv("VERIF_TIER"); t != "" && !isFlagSet("tier") {
 		*tier = t
 	}
@@ -97,6 +111,9 @@ func main() {
 			}()
 		}
 		rep.Info["functions_analysed"] = len(prog.Funcs)
+		if rn := core.RecognisedRenames(); len(rn) > 0 {
+			rep.Info["renames_recognised"] = rn
+		}
 	}
 	// every .go file of the package directory must have been analysed in some configuration
 	rules.CheckFilesCovered(rep, p.ID, *repo, filesSeen)
